@@ -676,6 +676,7 @@ func leafTokens(c *Ctx, info *types.Info, fr *fmtRoles) map[*ast.FuncDecl]string
 		if tok == "" {
 			return true
 		}
+		delegated := false
 		for _, s := range cc.Body {
 			var callX ast.Expr
 			if es, ok := s.(*ast.ExprStmt); ok {
@@ -687,7 +688,8 @@ func leafTokens(c *Ctx, info *types.Info, fr *fmtRoles) map[*ast.FuncDecl]string
 			if callX != nil {
 				if call, ok := ast.Unparen(callX).(*ast.CallExpr); ok {
 					if cf := calleeOf(info, call); cf != nil {
-						if d := c.declOf(cf); d != nil {
+						if d := c.declOf(cf); d != nil && d != fr.appendFD {
+							delegated = true
 							if prev, ok := out[d]; ok && prev != tok {
 								out[d] = prev + "|" + tok
 							} else {
@@ -696,6 +698,30 @@ func leafTokens(c *Ctx, info *types.Info, fr *fmtRoles) map[*ast.FuncDecl]string
 						}
 					}
 				}
+			}
+		}
+		if !delegated && len(cc.Body) > 0 {
+			// the arm produces the text itself (return strconv.Quote(actual)): the arm is the leaf
+			producesText := false
+			for _, s := range cc.Body {
+				if rs, ok := s.(*ast.ReturnStmt); ok && len(rs.Results) == 1 {
+					if bt, ok := info.TypeOf(rs.Results[0]).Underlying().(*types.Basic); ok && bt.Info()&types.IsString != 0 {
+						producesText = true
+					}
+				}
+				if es, ok := s.(*ast.ExprStmt); ok {
+					if call, ok := es.X.(*ast.CallExpr); ok && c.declOf(calleeOf(info, call)) == fr.appendFD && fr.appendFD != nil {
+						producesText = true
+					}
+				}
+			}
+			if producesText {
+				arm := &ast.FuncDecl{
+					Name: &ast.Ident{Name: c.fdName(fr.intrFD) + "/arm[" + exprStr(cc.List[0]) + "]", NamePos: cc.Pos()},
+					Type: fr.intrFD.Type,
+					Body: &ast.BlockStmt{Lbrace: cc.Colon, List: cc.Body, Rbrace: cc.End()},
+				}
+				out[arm] = tok
 			}
 		}
 		return true
